@@ -44,6 +44,10 @@ structure Success where
   merged : List Op
   patch : List Op
   post : WState
+  /-- `in_slots` / `out_slots` of `reserve_for_receipt` (`extend_slots_from_footprint` over the
+      accepted rewrites, in reservation order; canonicalised by `WarpTickPatchV1::new`) -/
+  inSlots : List Footprint.Res
+  outSlots : List Footprint.Res
   deriving Repr
 
 /-- Matching phase: per arrival `true` = Applied (enqueued), `false` = NoMatch; stops at the first
@@ -62,6 +66,14 @@ def matchAll (progOf : Nat → Nat → Option Program) (pre : WState) :
 
 /-- Footprint the scheduler sees for a matched candidate. -/
 def fpOf (cp : TCand × Program) : Footprint.Footprint := schedFootprint cp.1.warp cp.1.scope cp.2.fp
+
+/-- `extend_slots_from_footprint`: every read or written resource is an in-slot … -/
+def slotsIn (f : Footprint.Footprint) : List Footprint.Res :=
+  f.nRead ++ f.nWrite ++ f.eRead ++ f.eWrite ++ f.aRead ++ f.aWrite ++ f.bIn ++ f.bOut
+
+/-- … and every written one an out-slot. -/
+def slotsOut (f : Footprint.Footprint) : List Footprint.Res :=
+  f.nWrite ++ f.eWrite ++ f.aWrite ++ f.bOut
 
 /-- `RadixScheduler`: enqueue every match (last-wins on `(scope hash, compact rule)`), then drain
     in canonical order; `none` = scheduler panic. -/
@@ -109,7 +121,10 @@ def commitDrained (cfg : Cfg) (pre : WState) (radix : Bool) (items : List (TCand
       | .ok merged =>
         match applyOps pre (patchCanon merged) with
         | .error _ => .error .applyFailed
-        | .ok post => .ok { entries, merged, patch := diffState pre post, post }
+        | .ok post =>
+          .ok { entries, merged, patch := diffState pre post, post,
+                inSlots := accepted.flatMap (fun cp => slotsIn (fpOf cp)),
+                outSlots := accepted.flatMap (fun cp => slotsOut (fpOf cp)) }
 
 def commit (cfg : Cfg) (pre : WState) (radix : Bool) (matched : List (TCand × Program)) :
     Except Fail Success :=
